@@ -520,19 +520,21 @@ def rule_qualifier_forwarding(ctx, rep: Report, rid="S4", min_sites=3):
               and len(st.targets) == 1 and isinstance(st.targets[0], ast.Attribute) and isinstance(st.value, ast.Name)}
     flags = [p for p in func_params(tinit)[1:] if p.startswith("is_")]
     n = 0
+    import re as _re
     for c in ast.walk(fn):
-        if isinstance(c, ast.Call) and prog.resolve_class(c.func, mi) is prog.cls("Type"):
+        b = ctor_binding(prog, mi, c, "Type") if isinstance(c, ast.Call) else None
+        if b is not None:
             n += 1
-            b = bind_call(tinit, c, drop_self=True)
             srcs = set()
             for p in flags:
                 a = b.get(p)
                 key = f"rebuild:instantiate_type@{_branch_label(c, fn)}:{p}"
-                ok = isinstance(a, ast.Attribute) and isinstance(a.value, ast.Name) and a.attr == stored.get(p)
+                m_ = _re.fullmatch(r"([A-Za-z_]\w*)\.([A-Za-z_]\w*)", a or "")
+                ok = m_ is not None and m_.group(2) == stored.get(p)
                 if ok:
-                    srcs.add(a.value.id)
+                    srcs.add(m_.group(1))
                 rep.add(rid, key, ok,
-                        f"Type(...{p}={unparse(a) if a is not None else 'missing'}) must forward the original's "
+                        f"Type(...{p}={a if a is not None else 'missing'}) must forward the original's "
                         f"{stored.get(p)}: the qualifier would be dropped or swapped", f"{mi.rel}:{c.lineno}")
             rep.add(rid, f"rebuild:instantiate_type@{_branch_label(c, fn)}:one source object", len(srcs) == 1,
                     f"qualifiers are taken from {sorted(srcs)}", f"{mi.rel}:{c.lineno}")
@@ -577,6 +579,43 @@ def rule_name_default_forwarding(ctx, rep: Report, rid="S5"):
         raise AnalysisError(f"{rep.prop}/{rid}: {n} name/default forwarding sites, 4 expected")
 
 
+def ctor_binding(prog, mi, call: ast.Call, cls_qual: str, depth: int = 2) -> Optional[Dict[str, str]]:
+    """parameter -> argument text for a construction of `cls_qual`, in the caller's terms: either `call` constructs the
+    class itself, or it calls a module-level helper whose only return is such a construction (the helper's parameters
+    are then replaced by the arguments of this call)."""
+    rc = prog.resolve_class(call.func, mi)
+    if rc is not None:
+        if rc.qual != cls_qual:
+            return None
+        init = prog.find_method(rc, "__init__")
+        try:
+            return {k: unparse(v) for k, v in bind_call(init[1], call, drop_self=True).items()}
+        except AnalysisError:
+            return None
+    if depth <= 0 or not isinstance(call.func, ast.Name):
+        return None
+    h = mi.functions.get(call.func.id)
+    if h is None:
+        return None
+    rets = [r for r in walk_no_nested(h) if isinstance(r, ast.Return) and r.value is not None]
+    if len(rets) != 1 or not isinstance(rets[0].value, ast.Call):
+        return None
+    inner = ctor_binding(prog, mi, rets[0].value, cls_qual, depth - 1)
+    if inner is None:
+        return None
+    try:
+        outer = {k: unparse(v) for k, v in bind_call(h, call, drop_self=False).items()}
+    except AnalysisError:
+        return None
+    import re as _re
+
+    def sub(txt: str) -> str:
+        for pn in sorted(outer, key=len, reverse=True):
+            txt = _re.sub(rf"(?<![\w.]){_re.escape(pn)}\b", lambda m_: outer[pn], txt)
+        return txt
+    return {k: sub(v) for k, v in inner.items()}
+
+
 def rule_this(ctx, rep: Report, rid="S6"):
     prog = ctx.prog
     n = 0
@@ -615,8 +654,8 @@ def rule_this(ctx, rep: Report, rid="S6"):
         if isinstance(st, ast.If) and "== 'This'" in unparse(st.test):
             for r in ast.walk(st):
                 if isinstance(r, ast.Return) and isinstance(r.value, ast.Call):
-                    kw = {k.arg: unparse(k.value) for k in r.value.keywords}
-                    ok = kw.get("typename") == "cpp_typename"
+                    kw = ctor_binding(prog, mi, r.value, "Type")
+                    ok = kw is not None and kw.get("typename") == "cpp_typename"
     rep.add(rid, "this:instantiate_type:replaced by the instantiated class's C++ typename", ok,
             "the `This` branch must build the type from cpp_typename", f"{mi.rel}:{fn.lineno}")
 
@@ -686,14 +725,27 @@ def rule_product_sites(ctx, rep: Report, rid="N1", min_sites=3):
     for mi in sorted(prog.modules.values(), key=lambda m: m.rel):
         if not mi.rel.startswith(TI):
             continue
-        for loop in ast.walk(mi.tree):
-            if not isinstance(loop, ast.For):
-                continue
-            it = loop.iter
+        for it in ast.walk(mi.tree):
             if not (isinstance(it, ast.Call) and (dotted(it.func) or "").endswith("product")):
                 continue
+            fn = enclosing(it, ast.FunctionDef)
+            # the loop that consumes the product: `for x in product(..)` or `c = product(..) ... for x in c`
+            loop = parent(it) if isinstance(parent(it), ast.For) and parent(it).iter is it else None
+            if loop is None and isinstance(parent(it), ast.Assign) and len(parent(it).targets) == 1 \
+                    and isinstance(parent(it).targets[0], ast.Name) and fn is not None:
+                nm = parent(it).targets[0].id
+                cands = [l for l in ast.walk(fn) if isinstance(l, ast.For) and isinstance(l.iter, ast.Name) and l.iter.id == nm]
+                if len(cands) == 1:
+                    loop = cands[0]
+                    # the other values the name can hold are constants ([()] = one empty combination)
+                    others = [st.value for st in ast.walk(fn) if isinstance(st, ast.Assign) and len(st.targets) == 1
+                              and isinstance(st.targets[0], ast.Name) and st.targets[0].id == nm and st.value is not it]
+                    if any(not (isinstance(o, (ast.List, ast.Tuple)) and all(isinstance(e, (ast.Tuple, ast.List)) and not e.elts for e in o.elts))
+                           for o in others):
+                        raise AnalysisError(f"{mi.rel}:{it.lineno}: the product is mixed with other combination sources")
+            if loop is None:
+                raise AnalysisError(f"{mi.rel}:{it.lineno}: itertools.product result is not consumed by a loop this rule can follow")
             n += 1
-            fn = enclosing(loop, ast.FunctionDef)
             key = f"product:{fn.name if fn else '?'}:{unparse(it)[:60]}"
             ok = len(it.args) == 1 and isinstance(it.args[0], ast.Starred) and not it.keywords \
                 and unparse(it.args[0].value).endswith(".template.instantiations") \
@@ -783,24 +835,59 @@ def rule_typedef_path(ctx, rep: Report, rid="N2", min_kinds=3):
             detail = "the table of typedef targets is not built by a resolver function before the content loop"
         else:
             rp = func_params(resolver)
-            rloops = [l for l in resolver.body if isinstance(l, ast.For)]
-            stores = [x for x in ast.walk(resolver) if isinstance(x, ast.Subscript) and isinstance(x.ctx, ast.Store)]
-            good_store = False
-            for x in stores:
-                l = enclosing(x, ast.For)
-                if l is None or not isinstance(l.target, ast.Name):
-                    continue
-                ev = l.target.id
-                g = [t for t, pol in guards_of(x, resolver, include_exits=False) if pol]
-                val = parent(x).value if isinstance(parent(x), ast.Assign) else None
-                if unparse(x.slice) in (f"id({ev})", ev) and any("TypedefTemplateInstantiation" in t and ev in t for t in g) \
-                        and len(g) == 1 and is_lookup(resolver, val, {ev}) and unparse(l.iter) == f"{rp[0]}.content":
-                    good_store = True
-            rec = [c for c in ast.walk(resolver) if isinstance(c, ast.Call) and unparse(c.func) == resolver.name]
-            rec_ok = bool(rec) and all(
-                [t for t, pol in guards_of(c, resolver, include_exits=False) if pol] and
-                all("Namespace" in t for t, pol in guards_of(c, resolver, include_exits=False) if pol) and
-                len([t for t, pol in guards_of(c, resolver, include_exits=True)]) <= 2 for c in rec)
+
+            def walks_all_typedefs(f, emits) -> bool:
+                """f walks `<its first parameter>.content`, does `emits(stmt, element var, namespace param)` for every element
+                that is a typedef (under that isinstance test only) and applies itself to every element that is a namespace."""
+                p0 = func_params(f)[0]
+                for l in [x for x in f.body if isinstance(x, ast.For)]:
+                    if not (isinstance(l.target, ast.Name) and unparse(l.iter) == f"{p0}.content"):
+                        continue
+                    ev = l.target.id
+                    hit = False
+                    for st in ast.walk(l):
+                        if isinstance(st, ast.stmt) and emits(st, ev, p0):
+                            g = [t for t, pol in guards_of(st, f, include_exits=False) if pol]
+                            if len(g) == 1 and "TypedefTemplateInstantiation" in g[0] and ev in g[0]:
+                                hit = True
+                    rec = [c for c in ast.walk(l) if isinstance(c, ast.Call) and unparse(c.func) == f.name and c.args and unparse(c.args[0]) == ev]
+                    rec_ok_ = bool(rec) and all(
+                        [t for t, pol in guards_of(c, f, include_exits=False) if pol] and
+                        all("Namespace" in t for t, pol in guards_of(c, f, include_exits=False) if pol) and
+                        len(guards_of(c, f, include_exits=True)) <= 2 for c in rec)
+                    if hit and rec_ok_:
+                        return True
+                return False
+
+            def stores_lookup(st, ev, nsv) -> bool:
+                if not (isinstance(st, ast.Assign) and len(st.targets) == 1 and isinstance(st.targets[0], ast.Subscript)):
+                    return False
+                x = st.targets[0]
+                if unparse(x.slice) not in (f"id({ev})", ev):
+                    return False
+                v = st.value
+                return is_lookup(enclosing(st, ast.FunctionDef), v, {ev}) and \
+                    unparse(inline_locals(enclosing(st, ast.FunctionDef), v.func.value)) == f"{nsv}.top_level()"
+            good_store = rec_ok = walks_all_typedefs(resolver, stores_lookup)
+            if not good_store:
+                # the walk may live in a generator: `for ns, td in walker(namespace): table[id(td)] = ns.top_level().find...(td.typename)`
+                for l in [x for x in resolver.body if isinstance(x, ast.For)]:
+                    if not (isinstance(l.target, ast.Tuple) and len(l.target.elts) == 2 and all(isinstance(e, ast.Name) for e in l.target.elts)
+                            and isinstance(l.iter, ast.Call) and isinstance(l.iter.func, ast.Name) and l.iter.args
+                            and unparse(l.iter.args[0]) == rp[0]):
+                        continue
+                    nsv, tdv = l.target.elts[0].id, l.target.elts[1].id
+                    walker = mi.functions.get(l.iter.func.id)
+                    body_ok = any(stores_lookup(st, tdv, nsv) and not guards_of(st, resolver, include_exits=False) for st in l.body)
+
+                    def yields_pair(st, ev, p0):
+                        return isinstance(st, ast.Expr) and isinstance(st.value, ast.Yield) and isinstance(st.value.value, ast.Tuple) \
+                            and [unparse(e) for e in st.value.value.elts] == [p0, ev]
+                    if walker is not None and body_ok:
+                        # in the generator the recursion is `yield from walker(element)`
+                        good_store = rec_ok = walks_all_typedefs(walker, yields_pair) and all(
+                            isinstance(parent(c), ast.YieldFrom) for c in ast.walk(walker)
+                            if isinstance(c, ast.Call) and unparse(c.func) == walker.name)
             pure = not any(isinstance(x, ast.Attribute) and isinstance(x.ctx, ast.Store) for x in ast.walk(resolver)) and \
                 not any(isinstance(c, ast.Call) and unparse(c.func) == fn.name for c in ast.walk(resolver))
             lookup_ok = key_ok and good_store and rec_ok
@@ -816,8 +903,29 @@ def rule_typedef_path(ctx, rep: Report, rid="N2", min_kinds=3):
     n = 0
     for st in branch.body:
         for c in ast.walk(st):
-            if isinstance(c, ast.Call):
-                rc = prog.resolve_class(c.func, mi)
+            if not isinstance(c, ast.Call):
+                continue
+            targets_ = []
+            rc0 = prog.resolve_class(c.func, mi)
+            if rc0 is not None:
+                targets_ = [rc0]
+            elif isinstance(c.func, ast.Name):
+                # table-driven: `for kind, inst in TABLE: if isinstance(original, kind): ...inst(original, ...); break`
+                l_ = enclosing(c, ast.For)
+                if l_ is not None and isinstance(l_.target, ast.Tuple) and any(isinstance(e, ast.Name) and e.id == c.func.id for e in l_.target.elts):
+                    col = [e.id if isinstance(e, ast.Name) else None for e in l_.target.elts].index(c.func.id)
+                    it_ = l_.iter
+                    if isinstance(it_, ast.Name):
+                        cands_ = [x.value for x in mi.tree.body if isinstance(x, ast.Assign) and len(x.targets) == 1
+                                  and isinstance(x.targets[0], ast.Name) and x.targets[0].id == it_.id] + \
+                                 [x.value for x in walk_no_nested(fn) if isinstance(x, ast.Assign) and len(x.targets) == 1
+                                  and isinstance(x.targets[0], ast.Name) and x.targets[0].id == it_.id]
+                        it_ = cands_[0] if len(cands_) == 1 else None
+                    if isinstance(it_, (ast.Tuple, ast.List)) and all(isinstance(r_, ast.Tuple) and len(r_.elts) == len(l_.target.elts) for r_ in it_.elts):
+                        targets_ = [prog.resolve_class(r_.elts[col], mi) for r_ in it_.elts]
+                        if any(t_ is None for t_ in targets_):
+                            targets_ = []
+            for rc in targets_:
                 if rc is None or not rc.qual.startswith("Instantiated"):
                     continue
                 n += 1
@@ -910,6 +1018,50 @@ def rule_pass_through(ctx, rep: Report, rid="N3"):
                     f"{mi.rel}:{c.lineno}")
 
 
+def _spelling_shape(prog, ci, fn) -> Tuple[bool, str]:
+    """Some text built in fn has the skeleton `<name><<args>>` where <name> is self.original.name (directly or through
+    a local holding it) and <args> is a join over self.instantiations."""
+    from .emit import Folder
+    fo = Folder(prog, ci.mod, None, ci)
+
+    def values(e, depth=3) -> List[ast.AST]:
+        if isinstance(e, ast.Name) and depth > 0:
+            vs = [st.value for st in walk_no_nested(fn) if isinstance(st, ast.Assign) and len(st.targets) == 1
+                  and isinstance(st.targets[0], ast.Name) and st.targets[0].id == e.id]
+            out = []
+            for v in vs:
+                out += values(v, depth - 1) if isinstance(v, ast.Name) else [v]
+            return out or [e]
+        return [e]
+    seen = []
+    for c in ast.walk(fn):
+        if not (isinstance(c, ast.JoinedStr) or (isinstance(c, ast.Call) and isinstance(c.func, ast.Attribute) and c.func.attr == "format")):
+            continue
+        t = fo.fold(c)
+        if t is None:
+            continue
+        lit = t.literal("§")
+        seen.append(lit)
+        if lit != "§<§>":
+            continue
+        s0, s1 = t.slots()
+        name_vals = [v for v in values(s0.expr) if not (isinstance(v, (ast.JoinedStr, ast.Call)) and v is c)]
+        name_ok = bool(name_vals) and all(unparse(v) == "self.original.name" or v is c or
+                                          (isinstance(v, ast.JoinedStr) and fo.fold(v) is not None and fo.fold(v).literal("§") == "§<§>")
+                                          for v in values(s0.expr)) and any(unparse(v) == "self.original.name" for v in values(s0.expr))
+        args_ok = False
+        for v in values(s1.expr):
+            if isinstance(v, ast.Call) and isinstance(v.func, ast.Attribute) and v.func.attr == "join" and v.args:
+                for a in values(v.args[0]):
+                    gens = [g for x in ast.walk(a) if isinstance(x, (ast.ListComp, ast.GeneratorExp)) for g in x.generators]
+                    if gens and all(unparse(g.iter) == "self.instantiations" and not g.ifs for g in gens):
+                        args_ok = True
+        if name_ok and args_ok:
+            return True, "skeleton §<§> with self.original.name and a join over self.instantiations"
+        return False, f"skeleton §<§> found but name from {[unparse(v)[:30] for v in values(s0.expr)]}, arguments from {[unparse(v)[:40] for v in values(s1.expr)]}"
+    return False, f"no text with the skeleton Name<args> is built here (skeletons: {seen[:4]})"
+
+
 def rule_naming(ctx, rep: Report, rid="N4", min_sites=5):
     prog = ctx.prog
     n = 0
@@ -937,11 +1089,10 @@ def rule_naming(ctx, rep: Report, rid="N4", min_sites=5):
                       ("InstantiatedGlobalFunction", "to_cpp"), ("InstantiatedDeclaration", "to_cpp")):
         ci = prog.cls(cls)
         fn = prog.method(cls, meth)
-        txt = unparse(fn)
         n += 1
-        ok = "'{}<{}>'.format(self.original.name" in txt and "self.instantiations" in txt
+        ok, detail = _spelling_shape(prog, ci, fn)
         rep.add(rid, f"spelling:{cls}.{meth}:Name<args> from the template's own name and the instantiation list", ok,
-                "", f"{ci.mod.rel}:{fn.lineno}")
+                detail, f"{ci.mod.rel}:{fn.lineno}")
     if n < min_sites:
         raise AnalysisError(f"{rep.prop}/{rid}: {n} naming sites")
 
@@ -967,10 +1118,14 @@ def rule_capitalise(ctx, rep: Report, rid="N5"):
              if bad else "the capitalised name must be name[0].capitalize() + name[1:]"),
             f"{mi.rel}:{(bad or caps or [fn])[0].lineno}")
     joins = [c for c in ast.walk(fn) if isinstance(c, ast.Call) and isinstance(c.func, ast.Attribute) and c.func.attr == "join"]
-    loops = [l for l in ast.walk(fn) if isinstance(l, ast.For)]
+    iters = [(l.iter, []) for l in ast.walk(fn) if isinstance(l, ast.For)] + \
+            [(g.iter, g.ifs) for c in ast.walk(fn) if isinstance(c, (ast.ListComp, ast.GeneratorExp)) for g in c.generators]
+    reorder = [c for c in ast.walk(fn) if isinstance(c, ast.Call) and (unparse(c.func) in ("sorted", "reversed", "set") or
+                                                                       (isinstance(c.func, ast.Attribute) and c.func.attr in ("sort", "reverse")))]
     rep.add(rid, "instantiate_name:suffixes concatenated in instantiation order",
-            len(loops) == 1 and unparse(loops[0].iter) == func_params(fn)[1] and bool(joins),
-            "", f"{mi.rel}:{fn.lineno}", nontrivial=False)
+            len(iters) == 1 and unparse(iters[0][0]) == func_params(fn)[1] and not iters[0][1] and bool(joins) and not reorder,
+            f"iterations over {[unparse(i[0]) for i in iters]}, filters {[len(i[1]) for i in iters]}, reordering calls {len(reorder)}",
+            f"{mi.rel}:{fn.lineno}", nontrivial=False)
 
 
 # ==========================================================================================
